@@ -24,6 +24,8 @@ for t,mx in types:
                 invariant bcd_fold(data@, iter.index@ as nat, {mx}) == Some(rv as nat),
         //@ end
         open spec fn self_delimiting() -> bool {{ false }}
+        open spec fn dec_rel(b: Seq<u8>, v: &{t}, k: int) -> bool {{ true }}
+        open spec fn dec_total() -> bool {{ false }}
         open spec fn functional() -> bool {{ true }}
         proof fn law_dec_bounds(b: Seq<u8>) {{}}
         proof fn law_dec_frame(b: Seq<u8>, s: Seq<u8>) {{}}
